@@ -72,8 +72,8 @@ Qed.
 Lemma tx_frame_prefix_free : forall t t' r r',
   tx_frame t ++ r = tx_frame t' ++ r' -> t = t' /\ r = r'.
 Proof.
-  intros t t' r r' H. unfold tx_frame, varint in H. cbn [app] in H.
-  inversion H as [H1]. rewrite <- !app_assoc in H1.
+  intros t t' r r' H. unfold tx_frame in H. rewrite <- !app_comm_cons in H.
+  apply cons_inj in H as [_ H1]. rewrite <- !app_assoc in H1. unfold varint in H1.
   apply varint_from_prefix_free in H1 as [Hl Hr].
   apply Nat2N.inj in Hl. exact (app_same_length _ t t' r r' Hl Hr).
 Qed.
@@ -84,13 +84,13 @@ Proof.
   unfold txs_encoding.
   induction a as [|t a IH]; intros [|t' b] H; cbn [map concat] in H.
   - reflexivity.
-  - unfold tx_frame in H. cbn [app] in H. discriminate.
-  - unfold tx_frame in H. cbn [app] in H. discriminate.
+  - unfold tx_frame in H. rewrite <- app_comm_cons in H. discriminate.
+  - unfold tx_frame in H. rewrite <- app_comm_cons in H. discriminate.
   - apply tx_frame_prefix_free in H as [Ht Hr]. subst. f_equal. apply IH. exact Hr.
 Qed.
 
 Lemma commit_preimage_inj : forall a b, commit_preimage a = commit_preimage b -> a = b.
-Proof. unfold commit_preimage. intros a b H. inversion H. apply txs_encoding_inj. assumption. Qed.
+Proof. unfold commit_preimage. intros a b H. apply cons_inj in H as [_ H]. apply txs_encoding_inj. exact H. Qed.
 
 Lemma same_commitment_iff : forall a b, same_commitment a b = true <-> a = b.
 Proof.
@@ -154,6 +154,11 @@ Proof.
   intros I sh d H bl Hc. rewrite (validate_pair_txs sh d H). apply commit_preimage_inj. exact Hc.
 Qed.
 
+Lemma data_under_header_full : forall (I : tx -> btx) sh d, validate_pair sh d = true ->
+  d_txs d = h_data (sh_hdr sh) /\
+  forall bl : list btx, commit_preimage bl = commit_preimage (map I (h_data (sh_hdr sh))) -> bl = map I (d_txs d).
+Proof. intros I sh d H. split; [apply validate_pair_txs; exact H|apply validate_pair_bytes; exact H]. Qed.
+
 (* every block a full node applies and stores, whatever the traffic (DA and P2P, any origin, any order): its header
    is signed by the proposer and its transactions are the list that header commits to — so (bytes) the one list of
    byte strings with the signed commitment *)
@@ -169,12 +174,12 @@ Qed.
 
 Lemma applied_bytes_full : forall pk g, g_proposer g = Addr pk -> forall (I : tx -> btx) now tb l s, sync_inv pk s ->
   forall sh d, In (sh, d) (n_applied (node_final g now tb s l)) ->
-  signed_by pk sh = true /\
+  signed_by pk sh = true /\ d_txs d = h_data (sh_hdr sh) /\
   forall bl : list btx, commit_preimage bl = commit_preimage (map I (h_data (sh_hdr sh))) -> bl = map I (d_txs d).
 Proof.
   intros pk g Hg I now tb l s Hs sh d Hin.
   destruct (applied_txs_full pk g Hg now tb l s Hs sh d Hin) as [Hsig Ht].
-  split; [exact Hsig|]. intros bl Hc. rewrite Ht. apply commit_preimage_inj. exact Hc.
+  split; [exact Hsig|]. split; [exact Ht|]. intros bl Hc. rewrite Ht. apply commit_preimage_inj. exact Hc.
 Qed.
 
 (* ---- why the framing matters: the bare concatenation does not determine the list ------------------------------ *)
@@ -190,4 +195,6 @@ Definition RD : data := {| d_meta := Some {| m_chain := 7; m_height := 2; m_time
 (* the proposer's list with an empty transaction in front *)
 Definition ED : data := {| d_meta := Some {| m_chain := 7; m_height := 2; m_time := 2000 |}; d_txs := [9; 5; 6] |}.
 Definition recut_p2p : list item := [ IInitH W.sh1; IInitD W.D1; IGossipD RD true; IGossipH W.sh2; IGossipD W.D2 true ].
+Lemma p_inj_56_78 : forall x y, In x [5; 6] -> In y [7; 8] -> pool_get p x = pool_get p y -> x = y.
+Proof. intros x y [<-|[<-|[]]] [<-|[<-|[]]]; vm_compute; intros H; discriminate H. Qed.
 End WC.
